@@ -63,13 +63,45 @@ def _guard(job):
     """Run a chunk of items through fn; harness exceptions travel back as data."""
     fn, args = job
     out = []
-    for arg in args:
+    for idx, arg in args:
         try:
-            out.append(("ok", fn(arg)))
+            out.append(("ok", fn(arg), idx))
         except (Exception, SystemExit):
-            out.append(("err", traceback.format_exc()))
+            out.append(("err", traceback.format_exc(), idx))
             break
     return out
+
+
+RETRY_CASE_S = 900
+
+
+def _retry_one(job):
+    """Re-run one item alone with a long per-case guard (the first attempt hit the guard)."""
+    fn, arg = job
+    old = os.environ.get("VERIF_CASE_S")
+    os.environ["VERIF_CASE_S"] = str(RETRY_CASE_S)
+    try:
+        return ("ok", fn(arg))
+    except (Exception, SystemExit):
+        return ("err", traceback.format_exc())
+    finally:
+        if old is None:
+            os.environ.pop("VERIF_CASE_S", None)
+        else:
+            os.environ["VERIF_CASE_S"] = old
+
+
+def _has_inconclusive(val, depth=0):
+    if isinstance(val, dict):
+        if val.get("status") == "inconclusive":
+            return True
+        return depth < 2 and any(_has_inconclusive(v, depth + 1) for v in val.values() if isinstance(v, (list, tuple, dict)))
+    if isinstance(val, (list, tuple)):
+        return depth < 3 and any(_has_inconclusive(v, depth + 1) for v in val if isinstance(v, (list, tuple, dict)))
+    return False
+
+
+RETRIED = [0]
 
 
 def pmap(fn, items, chunksize=None):
@@ -80,8 +112,9 @@ def pmap(fn, items, chunksize=None):
         return []
     if chunksize is None:
         chunksize = max(1, min(64, len(items) // (NPROC * 8) or 1))
-    jobs = [(fn, items[i:i + chunksize]) for i in range(0, len(items), chunksize)]
+    jobs = [(fn, list(enumerate(items))[i:i + chunksize]) for i in range(0, len(items), chunksize)]
     out = []
+    again = []
     it = pool().imap_unordered(_guard, jobs, 1)      # chunksize 1 => IMapIterator with next(timeout)
     stall = int(os.environ.get("VERIF_STALL_S", "2400"))
     while True:
@@ -92,11 +125,25 @@ def pmap(fn, items, chunksize=None):
         except mp.TimeoutError:
             close_pool()
             harness_error("process pool delivered no result for %d s (worker died or job stuck)" % stall)
-        for tag, val in part:
+        for tag, val, idx in part:
             if tag == "err":
                 close_pool()
                 harness_error("worker raised:\n" + val)
-            out.append(val)
+            if _has_inconclusive(val):
+                again.append(idx)       # the per-case guard fired (transient load?): retried below, alone
+            else:
+                out.append(val)
+    for idx in again:
+        RETRIED[0] += 1
+        try:
+            tag, val = pool().apply_async(_retry_one, ((fn, items[idx]),)).get(timeout=stall)
+        except mp.TimeoutError:
+            close_pool()
+            harness_error("retry of a case that hit the wall-clock guard delivered no result for %d s" % stall)
+        if tag == "err":
+            close_pool()
+            harness_error("worker raised:\n" + val)
+        out.append(val)
     return out
 
 
@@ -241,6 +288,8 @@ class Report:
             if not isinstance(self.exhaustive, bool):
                 cov["exhaustive_boxes"] = self.exhaustive
         cov.update(self.extra)
+        if RETRIED[0]:
+            cov["cases_rerun_alone_after_hitting_the_wall_clock_guard"] = RETRIED[0]
         ev = {
             "property_id": self.prop,
             "tier": self.args.tier,
@@ -318,6 +367,7 @@ def pristine_start(func, payload):
                          stderr=subprocess.PIPE, cwd=VERIF, env=env, text=True)
     p.stdin.write(json.dumps(payload))
     p.stdin.close()
+    p._verif_call = (func, payload)
     return p
 
 
@@ -332,7 +382,19 @@ def pristine_wait(p, timeout=3600):
         harness_error("pristine subprocess failed: %s" % e)
     for line in out.splitlines():
         if line.startswith(MARK):
-            return json.loads(line[len(MARK):])
+            res = json.loads(line[len(MARK):])
+            if _has_inconclusive(res) and os.environ.get("VERIF_CASE_S") != str(RETRY_CASE_S) and hasattr(p, "_verif_call"):
+                RETRIED[0] += 1             # the per-case guard fired: once more, with a long guard
+                old = os.environ.get("VERIF_CASE_S")
+                os.environ["VERIF_CASE_S"] = str(RETRY_CASE_S)
+                try:
+                    return pristine_wait(pristine_start(*p._verif_call), timeout=timeout)
+                finally:
+                    if old is None:
+                        os.environ.pop("VERIF_CASE_S", None)
+                    else:
+                        os.environ["VERIF_CASE_S"] = old
+            return res
     harness_error("pristine subprocess gave no result (exit %s):\n%s" % (p.returncode, err[-2000:]))
 
 
